@@ -718,3 +718,75 @@ def check_partition_fixpoint(ctx, rep, f):
                     rep.undecided(RULE + '.W5', h, 'def ' + h.name, 'equality helper form not recognised')
         return True
     return False
+
+
+# ---- W6: one-shot iterators --------------------------------------------------------------------------------------
+
+ONE_SHOT_CALLS = {'map', 'filter', 'zip', 'iter', 'reversed', 'enumerate'}
+
+
+def _is_one_shot(ctx, f, e):
+    if isinstance(e, ast.GeneratorExp):
+        return True
+    if isinstance(e, ast.Call):
+        nm = ctx.callee_name(f, e)
+        if nm is None:
+            return False
+        if nm in ONE_SHOT_CALLS or nm.startswith('itertools.'):
+            return True
+        if isinstance(e.func, ast.Attribute) and e.func.attr in ('items', 'keys', 'values'):
+            return False
+    return False
+
+
+def check_one_shot_iterators(ctx, rep, funcs, rule=RULE + '.W6'):
+    """an iterator (itertools.*, map, zip, generator expression ...) created outside a loop must not be iterated inside
+    it: from the second round on it is exhausted"""
+    n = 0
+    for f in funcs:
+        loops = [l for l in walk_no_nested(f.node) if isinstance(l, (ast.While, ast.For))]
+        if not loops:
+            continue
+        for outer in loops:
+            for inner in ast.walk(outer):
+                if inner is outer or not isinstance(inner, (ast.For, ast.comprehension)):
+                    continue
+                it = inner.iter
+                if not isinstance(it, ast.Name):
+                    continue
+                defs = [d for d in walk_no_nested(f.node) if isinstance(d, ast.Assign) and any(isinstance(t, ast.Name) and t.id == it.id for t in d.targets)]
+                if len(defs) != 1:
+                    continue
+                d = defs[0]
+                if any(x is d for x in ast.walk(outer)):
+                    continue
+                if not _is_one_shot(ctx, f, d.value):
+                    continue
+                n += 1
+                rep.violates(rule, f, d, 'the one-shot iterator {} is created outside the loop `{}` but consumed inside it: from the second round on it is empty, so later rounds do nothing'.format(it.id, norm(outer)))
+    return n
+
+
+def check_marker_alias(ctx, rep, f, rule=RULE + '.W2'):
+    """the worklist and its seen-marker must be different objects"""
+    unit = ctx.effects.unit(f)
+    if unit is None:
+        return
+    vs = unit.varsum.get(f.qualname, {})
+    for wl in find_worklist_loops(ctx, f):
+        fx = ctx.facts(f)
+        markers = set()
+        sites, _ = _enqueue_sites(wl)
+        for (st, kind, expr) in sites:
+            for a in fx.guard_atoms(fx.cfg.n_of(st)):
+                if a[0] == 'in' and a[3] is False:
+                    markers.add(a[2])
+        for m in sorted(markers):
+            if m == wl.wl:
+                continue
+            a, b = vs.get(m, set()), vs.get(wl.wl, set())
+            common = {x for x in a & b if x[0] == 'A'}
+            if common:
+                rep.violates(rule, f, wl.loop, 'the worklist {} and its seen-marker {} are the same object: popping an element also un-marks it, so it can be visited again (non-termination on a cycle)'.format(wl.wl, m))
+            else:
+                rep.holds(rule, f, 'objects of {} and {}'.format(wl.wl, m), 'worklist and seen-marker are distinct objects', nontrivial=True)
